@@ -15,7 +15,11 @@ func main() {
 		if len(p.Senders) == 1 && p.Cancel == "" && p.Closer != "thread" {
 			b = 3
 		}
-		scs = append(scs, mcx.Scenario{Name: p.Name(), Body: p.Body(), Bound: b, ThoroughBound: b + 1, Family: "pipe"})
+		sc := mcx.Scenario{Name: p.Name(), Body: p.Body(), Bound: b, ThoroughBound: b + 1, Family: "pipe"}
+		if p.Buf >= 5 {
+			sc.Bound, sc.ThoroughBound, sc.SwitchBound = 1, 2, 2
+		}
+		scs = append(scs, sc)
 	}
 	mcx.Main("C10", scs, []string{
 		"'sent before the sender was closed' is read as: Send returned nil before Close was called",
